@@ -24,7 +24,7 @@ Open Scope N_scope.
 Theorem C14_http_eq_local_plain :
   forall (B : Type) (plain : list N -> B) (gz : N -> list N -> B) (gunzip : B -> gzres),
   (forall l b, gunzip (gz l b) = GzOk b) ->
-  forall (slice : B -> N -> N -> option B) c ex U X,
+  forall (slice : B -> N -> N -> option B) c fm U X,
   cleanb (base c) = true ->
   (forall n, In n U -> n <> [] /\ cleanb n = true /\ gzfree n = true) ->
   (forall n m, In n U -> In m U -> prefix n m -> n = m) ->
@@ -32,8 +32,8 @@ Theorem C14_http_eq_local_plain :
   forall sc dpath,
   base c = s_root sc ++ ne_parts dpath -> s_rewrite sc = negb (flat c) -> s_gzip_static sc = true ->
   forall t m key co,
-  Inv B plain gz c ex U t m -> simple_comp key = true ->
-  op_ok c ex U X (OFetchChunk key co) -> nonneg co ->
+  Inv B plain gz c U fm t m -> simple_comp key = true ->
+  op_ok c U X (OFetchChunk key co) -> nonneg co ->
   fst (hrun B (serve B (plain []) slice sc t) 0
             (http_fetch_chunk B plain gunzip (base_url sc dpath) key co))
   = out_data B (fst (run_op B plain gz gunzip c t (OFetchChunk key co))).
@@ -46,7 +46,7 @@ Print Assumptions C14_http_eq_local_plain.
 Theorem C14_http_eq_local_file :
   forall (B : Type) (plain : list N -> B) (gz : N -> list N -> B) (gunzip : B -> gzres),
   (forall l b, gunzip (gz l b) = GzOk b) ->
-  forall (slice : B -> N -> N -> option B) c ex U X,
+  forall (slice : B -> N -> N -> option B) c fm U X,
   cleanb (base c) = true ->
   (forall n, In n U -> n <> [] /\ cleanb n = true /\ gzfree n = true) ->
   (forall n m, In n U -> In m U -> prefix n m -> n = m) ->
@@ -54,7 +54,7 @@ Theorem C14_http_eq_local_file :
   forall sc dpath,
   base c = s_root sc ++ ne_parts dpath -> s_rewrite sc = negb (flat c) -> s_gzip_static sc = true ->
   forall t m name n,
-  Inv B plain gz c ex U t m -> is_absolute name = false -> spec_norm name = Some n ->
+  Inv B plain gz c U fm t m -> is_absolute name = false -> spec_norm name = Some n ->
   ne_parts name = n -> In n U ->
   (s_rewrite sc = false \/ flat_axes (last n []) = None) ->
   fst (hrun B (serve B (plain []) slice sc t) 0
